@@ -25,7 +25,7 @@ func init() {
 		Name: "c02_billing_conc", Property: "C02", MaxSteps: 30000, Quick: 250, Thorough: 20000,
 		Doc:  "the c10 burst world judged by billing only: overlapping and back-to-back keep-alives of the same and of different clients must move every balance by what some one-at-a-time order gives - in particular no stretch of time is billed twice",
 		Real: worldReal, Stub: worldStub,
-		Run:  func(s *kernel.Sim) { runC10(s, "C02") },
+		Run: func(s *kernel.Sim) { runC10(s, "C02") },
 	})
 	Register(&Scenario{
 		Name: "c01_ledger_conc", Property: "C01", MaxSteps: 30000, Quick: 250, Thorough: 20000,
